@@ -6,7 +6,7 @@
    what get_string returns (bytes); _unpack never turns them back into str.  The hypothesis
    NoDup (map fst (a_ext a)) says the dict's keys are distinct as bytes (a dict holding both 'k'
    and b'k' writes the same key twice and cannot round-trip). *)
-From PV Require Import Bytes C39 C33 C33_proofs.
+From PV Require Import Bytes C39 C33_gen C33 C33_proofs.
 Open Scope Z_scope.
 
 (* Whatever follows the attribute block in the message: decoding the encoding of `a` consumes
@@ -18,7 +18,7 @@ Open Scope Z_scope.
 Theorem C33_roundtrip :
   forall (a : attrs) (bs rest : list Z),
     NoDup (map fst (a_ext a)) -> pack a = Ok bs ->
-    unpack (bs ++ rest) 0 = (flags_of a, normalize a, length bs).
+    unpack (bs ++ rest) 0 = Ok (flags_of a, normalize a, length bs).
 Proof. exact roundtrip. Qed.
 Print Assumptions C33_roundtrip.
 
@@ -26,7 +26,7 @@ Print Assumptions C33_roundtrip.
 Theorem C33_roundtrip_paired :
   forall (a : attrs) (bs rest : list Z),
     paired a = true -> NoDup (map fst (a_ext a)) -> pack a = Ok bs ->
-    unpack (bs ++ rest) 0 = (flags_of a, a, length bs).
+    unpack (bs ++ rest) 0 = Ok (flags_of a, a, length bs).
 Proof. exact roundtrip_paired. Qed.
 Print Assumptions C33_roundtrip_paired.
 
@@ -48,13 +48,20 @@ Print Assumptions C33_absent_stays_absent.
 Theorem C33_flags_exact :
   forall a : attrs,
   flags_of a =
-  (if is_some (a_size a) then 1 else 0) +
-  (if is_some (a_uid a) && is_some (a_gid a) then 2 else 0) +
-  (if is_some (a_mode a) then 4 else 0) +
-  (if is_some (a_atime a) && is_some (a_mtime a) then 8 else 0) +
-  (if nonempty (a_ext a) then 2147483648 else 0).
+  (if is_some (a_size a) then FLAG_SIZE else 0) +
+  (if is_some (a_uid a) && is_some (a_gid a) then FLAG_UIDGID else 0) +
+  (if is_some (a_mode a) then FLAG_PERMISSIONS else 0) +
+  (if is_some (a_atime a) && is_some (a_mtime a) then FLAG_AMTIME else 0) +
+  (if nonempty (a_ext a) then FLAG_EXTENDED else 0).
 Proof. exact flags_exact. Qed.
 Print Assumptions C33_flags_exact.
+
+(* FLAG_* are regenerated from paramiko/sftp_attr.py on every run (Gen/C33_gen.v); they are the
+   five distinct bits of the SFTP draft (editing one in the source breaks this and the sum above) *)
+Theorem C33_flag_values :
+  FLAG_SIZE = 1 /\ FLAG_UIDGID = 2 /\ FLAG_PERMISSIONS = 4 /\ FLAG_AMTIME = 8 /\ FLAG_EXTENDED = 2147483648.
+Proof. exact flag_values. Qed.
+Print Assumptions C33_flag_values.
 
 (* and the decoder's tests `flags & FLAG` recover exactly that set *)
 Theorem C33_flags_tests :
@@ -86,16 +93,17 @@ Print Assumptions C33_pack_ignores_prior_flags.
 Theorem C33_roundtrip_any_history :
   forall (prior : Z) (a : attrs) (bs rest : list Z),
     NoDup (map fst (a_ext a)) -> fst (pack_obj prior a) = Ok bs ->
-    unpack (bs ++ rest) 0 = (snd (pack_obj prior a), normalize a, length bs).
+    unpack (bs ++ rest) 0 = Ok (snd (pack_obj prior a), normalize a, length bs).
 Proof. exact roundtrip_any_history. Qed.
 Print Assumptions C33_roundtrip_any_history.
 
 (* decode anything, replace the fields, encode, decode: the new fields and exactly their flags *)
 Theorem C33_decode_edit_encode :
-  forall (buf : list Z) (pos : nat) (a' : attrs) (bs rest : list Z),
+  forall (buf : list Z) (pos : nat) (fl : Z) (a : attrs) (p : nat) (a' : attrs) (bs rest : list Z),
+    unpack buf pos = Ok (fl, a, p) ->
     NoDup (map fst (a_ext a')) ->
-    fst (pack_obj (fst (fst (unpack buf pos))) a') = Ok bs ->
-    unpack (bs ++ rest) 0 = (flags_of a', normalize a', length bs).
+    fst (pack_obj fl a') = Ok bs ->
+    unpack (bs ++ rest) 0 = Ok (flags_of a', normalize a', length bs).
 Proof. exact decode_edit_encode. Qed.
 Print Assumptions C33_decode_edit_encode.
 
@@ -112,11 +120,27 @@ Print Assumptions C33_noreset_refuted.
 (* the code before the repair (self.attr[msg.get_string()] = msg.get_string(), right-hand side
    evaluated first) returns every extended pair with key and value exchanged *)
 Theorem C33_v0_swap_refuted :
-  exists a bs, pack a = Ok bs /\ NoDup (map fst (a_ext a)) /\ paired a = true /\
-    snd (fst (unpack_v0 bs 0)) <> a /\
-    a_ext (snd (fst (unpack_v0 bs 0))) = map (fun kv => (snd kv, fst kv)) (a_ext a).
+  exists a bs a', pack a = Ok bs /\ NoDup (map fst (a_ext a)) /\ paired a = true /\
+    unpack_v0 bs 0 = Ok (flags_of a, a', length bs) /\ a' <> a /\
+    a_ext a' = map (fun kv => (snd kv, fst kv)) (a_ext a).
 Proof. exact v0_swaps. Qed.
 Print Assumptions C33_v0_swap_refuted.
+
+(* the guarded _unpack (if count > len(msg.get_remainder()) // 8: raise SSHException) refuses a pair
+   count the message cannot hold before the loop runs; `unpack` is this code exactly when gen/c33.py
+   finds the guard in the source (G_COUNT_BOUNDED), and the round trip above holds either way *)
+Theorem C33_count_guard :
+  forall (buf : list Z) (pos : nat),
+  let '(fl, p0) := get_int buf pos in
+  let '(_, p1) := dec_size fl buf p0 in
+  let '(_, _, p2) := dec_pair fl FLAG_UIDGID buf p1 in
+  let '(_, p3) := dec_mode fl buf p2 in
+  let '(_, _, p4) := dec_pair fl FLAG_AMTIME buf p3 in
+  has fl FLAG_EXTENDED = true ->
+  fst (get_int buf p4) > Z.of_nat (length (skipn (snd (get_int buf p4)) buf)) / 8 ->
+  unpack_gen true false buf pos = Raise SSHExc.
+Proof. exact count_guard. Qed.
+Print Assumptions C33_count_guard.
 
 (* non-vacuity: a concrete attribute set with every field present, boundary values and two
    extended pairs meets the hypotheses *)
